@@ -5,7 +5,7 @@ cd $WT || exit 2
 git checkout -q -- . ; git clean -fdq tests
 : > $LOG
 FEAT=""
-grep -q "with_rng\|features verif\|feature = \"verif\"" $D/demo.rs $D/README.md 2>/dev/null && FEAT="--features verif"
+grep -q "with_rng\|features verif\|feature = \"verif\"" $D/demo.rs $D/README.md 2>/dev/null && FEAT="--features verif-hooks"
 cp $D/demo.rs tests/demo_$N.rs
 # 1. demo on clean tree: must pass
 if cargo test --offline $FEAT --test demo_$N >> $LOG 2>&1; then echo "clean_demo=pass" | tee -a $LOG; else echo "clean_demo=FAIL" | tee -a $LOG; fi
